@@ -31,6 +31,8 @@ pub enum Plan {
     Ids(Vec<usize>),
     Kind(char),
     PunchUnsupported,
+    /// hole punching unsupported and these requests fail (a failing zero-write fallback)
+    NoPunchIds(Vec<usize>),
 }
 
 impl Plan {
@@ -39,6 +41,7 @@ impl Plan {
             Plan::Ids(v) => format!("fail requests {:?}", v),
             Plan::Kind(c) => format!("fail every request of kind {}", c),
             Plan::PunchUnsupported => "hole punch unsupported".into(),
+            Plan::NoPunchIds(v) => format!("hole punch unsupported, fail requests {:?}", v),
         }
     }
     fn to_json(&self) -> serde_json::Value {
@@ -46,6 +49,7 @@ impl Plan {
             Plan::Ids(v) => json!({"fail_ids": v}),
             Plan::Kind(c) => json!({"fail_kind": c.to_string()}),
             Plan::PunchUnsupported => json!({"punch_unsupported": true}),
+            Plan::NoPunchIds(v) => json!({"punch_unsupported": true, "fail_ids": v}),
         }
     }
 }
@@ -72,6 +76,103 @@ impl FaultScenario {
         }
         let n = w.sim.borrow().reqs.len();
         Ok((start, n))
+    }
+
+    /// number of requests of the run of `hist` where hole punching is unsupported (fault-free otherwise)
+    pub fn count_requests_nopunch(&self, hist: &[Op]) -> Result<(usize, usize), String> {
+        let mut w = World::new(self.img.files.clone(), self.img.rd.clone(), &self.cfg, &self.cfg)?;
+        w.sim.borrow_mut().fault.punch_unsupported = true;
+        let start = w.sim.borrow().reqs.len();
+        for op in hist {
+            let _ = w.step(op);
+        }
+        let n = w.sim.borrow().reqs.len();
+        Ok((start, n))
+    }
+
+    /// a request fails while the device is being opened (qcow2_prep_io), the backend heals and
+    /// qcow2_prep_io is called again on the same device: either it fails again or the device
+    /// works (reads equal the reference disk, a write + flush leaves a safe image)
+    pub fn open_fault_runs(&self) -> (u64, Vec<Violation>) {
+        let mut out = vec![];
+        let mut runs = 0;
+        let plan0 = Plan::Ids(vec![]);
+        // fault-free number of open requests
+        let nopen = {
+            let sim = Sim::new(self.img.files.clone());
+            let _ = open_chain(&sim, 0, &self.cfg, false);
+            let n = sim.borrow().reqs.len();
+            n
+        };
+        for i in 0..nopen {
+            runs += 1;
+            let sim = Sim::new(self.img.files.clone());
+            sim.borrow_mut().fault.fail_ids = [i].into_iter().collect();
+            let plan = Plan::Ids(vec![i]);
+            let r = std::panic::catch_unwind(std::panic::AssertUnwindSafe(|| -> Result<Option<Dev>, String> {
+                let io = crate::simio::SimIo::new(&sim, 0);
+                let params = self.cfg.params(false, false);
+                let (dev, _back) = match block_on(qcow2_rs::utils::qcow2_alloc_dev(std::path::Path::new("sim0"), io, &params)) {
+                    Ok(x) => x,
+                    Err(_) => return Ok(None), // refused at open: fine
+                };
+                let first = block_on(dev.qcow2_prep_io());
+                sim.borrow_mut().fault = Default::default();
+                if first.is_ok() {
+                    return Ok(Some(dev));
+                }
+                match block_on(dev.qcow2_prep_io()) {
+                    Ok(_) => Ok(Some(dev)),
+                    Err(_) => Ok(None), // keeps failing: fine
+                }
+            }));
+            let dev = match r {
+                Ok(Ok(Some(d))) => d,
+                Ok(Ok(None)) => continue,
+                Ok(Err(e)) => {
+                    out.push(self.viol(format!("open-fault:error:{}", err_category(&e)), e, &[], &plan));
+                    continue;
+                }
+                Err(p) => {
+                    out.push(self.viol(format!("open-fault:panic:{}", err_category(&panic_msg(p))), "panic while opening with a failing request".into(), &[], &plan));
+                    continue;
+                }
+            };
+            if self.img.files.len() > 1 {
+                continue; // backing chains are opened by the harness itself
+            }
+            // the device claims to be usable
+            let vsize = self.img.rd.vsize;
+            let got = crate::lin::read_all(&dev, vsize as usize, 1usize << self.cfg.bs_bits);
+            if let Some(b) = (0..self.img.rd.blocks.len()).find(|b| got[*b] != Some(self.img.rd.blocks[*b])) {
+                out.push(self.viol(
+                    format!("open-fault:retried-open-reads-wrong-data:got-{}", classify_word(got[b])),
+                    format!("request {} failed during qcow2_prep_io(), the retried qcow2_prep_io() returned Ok, but guest block {:#x} reads {} instead of {}", i, b * BLK, describe_word(got[b]), describe_word(Some(self.img.rd.blocks[b]))),
+                    &[],
+                    &plan,
+                ));
+                continue;
+            }
+            let mut buf = crate::world::make_write_buf(BLK, 0x7d);
+            let wres = std::panic::catch_unwind(std::panic::AssertUnwindSafe(|| {
+                let last = (vsize - BLK as u64) / BLK as u64 * BLK as u64;
+                let a = block_on(dev.write_at(&buf[..BLK], last));
+                let b = block_on(dev.flush_meta());
+                (a.is_ok(), b.is_ok())
+            }));
+            let _ = &mut buf;
+            match wres {
+                Ok((true, true)) => {
+                    if let Some((c, d)) = check_image(&sim.borrow().files[0]).first_problem(false) {
+                        out.push(self.viol(format!("open-fault:image-unsafe-after-use:{}", c), format!("request {} failed during qcow2_prep_io(), retried Ok; after one write + flush: {}", i, d), &[], &plan));
+                    }
+                }
+                Ok(_) => out.push(self.viol("open-fault:later-op-failed".into(), format!("request {} failed during qcow2_prep_io(), retried Ok; a write + flush afterwards failed", i), &[], &plan)),
+                Err(p) => out.push(self.viol(format!("open-fault:panic-after-open:{}", err_category(&panic_msg(p))), "write + flush after a retried open panicked".into(), &[], &plan)),
+            }
+        }
+        let _ = plan0;
+        (runs, out)
     }
 
     /// per flush operation of the fault-free run: the ids of the write requests it issued (its
@@ -107,6 +208,10 @@ impl FaultScenario {
                 Plan::Ids(v) => s.fault.fail_ids = v.iter().copied().collect(),
                 Plan::Kind(c) => s.fault.fail_kinds = vec![*c],
                 Plan::PunchUnsupported => s.fault.punch_unsupported = true,
+                Plan::NoPunchIds(v) => {
+                    s.fault.punch_unsupported = true;
+                    s.fault.fail_ids = v.iter().copied().collect();
+                }
             }
         }
         // allowed values per block
